@@ -90,6 +90,13 @@ def _gen_base(rng):
             base["faces"] = gen.hull_faces(gen.box(1.0, 1.0, 1.0))
             base["faces_are_convex"] = True
         return base
+    if mode != "decimal" and rng.chance(0.03):
+        # more than 1024 triangles in one file (a writer that works in batches)
+        n = rng.randint(520, 640)
+        v0 = gen.ellipsoid_points_fast(rng, n)
+        v, R, sc, off = gen.place3d(v0, rng, scale=10 ** rng.uniform(-1, 1))
+        return {"cls": "ConvexPolyhedron", "family": "xlarge", "vertices": gen.tolist(v),
+                "placement": "large"}
     if mode == "large":
         # more than 256 lines of vertices + faces in one file
         n = rng.randint(90, 130)
